@@ -77,6 +77,29 @@ pub(crate) fn force() -> bool {
     false
 }
 
+#[cfg(feature = "std")]
+std::thread_local! {
+    static CHALLENGES: RefCell<Vec<(&'static [u8], BlsScalar)>> = const { RefCell::new(Vec::new()) };
+}
+
+#[cfg(feature = "std")]
+pub(crate) fn log_challenge(label: &'static [u8], value: &BlsScalar) {
+    CHALLENGES.with(|c| {
+        let mut c = c.borrow_mut();
+        // bounded: an observer that never drains must not grow without limit
+        if c.len() < 4096 {
+            c.push((label, *value));
+        }
+    });
+}
+
+/// Drain the log of transcript challenges `(label, value)` squeezed on this
+/// thread since the last call (prover and verifier alike).
+#[cfg(feature = "std")]
+pub fn take_challenge_log() -> Vec<(&'static [u8], BlsScalar)> {
+    CHALLENGES.with(|c| core::mem::take(&mut *c.borrow_mut()))
+}
+
 /// Read-only copy of a composer's emitted layout and witness table.
 #[derive(Debug, Clone, PartialEq, Eq)]
 pub struct Snapshot {
